@@ -192,7 +192,7 @@ def replay(rec) -> int:
 
 META = {
     'technique': 'TLC-enumerated scenarios of OpsResource.tla (transducer + reference, exactly-once invariants) replayed on the real using/finally/do_* operators on TestScheduler',
-    'level': 'OpsResource.tla states using, finally_action, do_finally, do_action, do(observer) and the five do_* variants twice (event-by-event transducer and a reference computed from the scenario) and TLC checks on every enumerated scenario that they agree and that the resource is disposed exactly once at the earlier of termination and disposal (also when the observable factory raises), the finally action runs exactly once after the terminal was delivered or at disposal, and taps forward the source unchanged unless a callback raises. Every scenario (inner timeline x fault position x 1-2 subscriptions x dispose point incl. both tie orders at the terminal) is then run on the real operators with hot, cold and synchronous sources, several time maps and dispose realisations, and the ordered, timed event log per subscription must be one the model allows. Exhaustive for the stated bounds.',
+    'level': 'OpsResource.tla states using, finally_action, do_finally, do_action, do(observer) and the five do_* variants twice (event-by-event transducer and a reference computed from the scenario) and TLC checks on every enumerated scenario that they agree and that the resource is disposed exactly once at the earlier of termination and disposal (also when the observable factory raises), the finally action runs exactly once after the terminal was delivered or at disposal, and taps forward the source unchanged unless a callback raises. Every scenario (inner timeline x fault position x 1-2 subscriptions x dispose point incl. both tie orders at the terminal) is then run on the real operators with hot, cold and synchronous sources, several time maps and dispose realisations, and the ordered, timed event log per subscription must be one the model allows. Exhaustive for the stated bounds. In addition the invariant FinallyExactlyOnce is applied to runs over hostile sources (terminal delivered inside subscribe() followed by a raise; an upstream dispose() that raises).',
     'note': 'TLC 1.8; codec and recorder in props/res_common.py; TestScheduler (verified by C28)',
     'ref': 'DESIGN.md 6 C40, App. C',
 }
